@@ -122,7 +122,9 @@ def parseDoc (j : Json) : Except String Document := do
   pure { headers := (← (← arr j "headers").mapM parseStory), body := (← (← arr j "body").mapM parseBlock),
          footers := (← (← arr j "footers").mapM parseStory), titlePg := boolD j "title_pg" false,
          evenOdd := boolD j "even_odd" false, comments := (← (← arr j "comments").mapM parseComment),
-         commentsEx := ex, hasExtended := hasExt }
+         commentsEx := ex, hasExtended := hasExt,
+         commentsIds := (← (← arr j "comments_ids").mapM fun e => do pure ((← reqStr e "para_id"), (← reqStr e "durable"))),
+         commentsCex := (← (← arr j "comments_cex").mapM fun e => do pure ((← reqStr e "durable"), (← reqStr e "date"))) }
 
 end DriverDoc
 
@@ -196,5 +198,24 @@ def storyJ (s : Story) : Json := Json.mkObj [("type", sJ s.ty), ("blocks", Json.
 def docStoriesJ (d : Document) : Json :=
   Json.mkObj [("headers", Json.arr (d.headers.map storyJ).toArray), ("body", Json.arr (d.body.map blockJ).toArray),
     ("footers", Json.arr (d.footers.map storyJ).toArray)]
+
+end DriverDoc
+
+namespace DriverDoc
+open Lean Adeu Adeu.Doc
+
+def commentJ (c : Comment) : Json :=
+  Json.mkObj [("id", sJ c.id), ("author", oJ c.author), ("date", oJ c.date), ("initials", oJ c.initials),
+    ("paras", Json.arr (c.paras.map fun p => Json.mkObj [("para_id", oJ p.paraId), ("text", Json.arr (p.text.map sJ).toArray)]).toArray),
+    ("legacy_parent", oJ c.legacyParent), ("done_attr", oJ c.doneAttr)]
+
+def docFullJ (d : Document) : Json :=
+  Json.mkObj [("headers", Json.arr (d.headers.map storyJ).toArray), ("body", Json.arr (d.body.map blockJ).toArray),
+    ("footers", Json.arr (d.footers.map storyJ).toArray),
+    ("comments", Json.arr (d.comments.map commentJ).toArray),
+    ("comments_ex", Json.arr (d.commentsEx.map fun e =>
+      Json.mkObj [("para_id", oJ e.paraId), ("parent", oJ e.parent), ("done", oJ e.done)]).toArray),
+    ("comments_ids", Json.arr (d.commentsIds.map fun (p, du) => Json.mkObj [("para_id", sJ p), ("durable", sJ du)]).toArray),
+    ("comments_cex", Json.arr (d.commentsCex.map fun (du, dt) => Json.mkObj [("durable", sJ du), ("date", sJ dt)]).toArray)]
 
 end DriverDoc
